@@ -27,6 +27,7 @@ type c08Cell struct {
 	C        bool   `json:"c,omitempty"`   // a third single-op thread is enumerated too
 	Unb      bool   `json:"unb,omitempty"` // all interleavings (unbounded, HB cached) instead of preemption bound 2
 	Unl      bool   `json:"unl,omitempty"` // the cache is configured with UnlimitedTTL (entries never expire on their own)
+	Coll     bool   `json:"coll,omitempty"` // k0 and k1 have the SAME 64-bit hash (slot model, shared with C09)
 }
 
 func (c c08Cell) id() string { js, _ := json.Marshal(c); return string(js) }
@@ -91,6 +92,14 @@ func c08Cells(tier string) []Cell {
 			for _, a := range c08Progs(2) {
 				cells = append(cells, Cell{ID: c08Cell{Backend: b, Batch: bt, A: a, NB: 1, Unl: true, Unb: tier == "thorough"}.id()})
 			}
+		}
+	}
+
+	// The hash-colliding part of the key set: two different keys with the same xxhash64, all schedules of the small
+	// programs, per-slot linearizability (an operation affects its own key only; a write may displace the other key).
+	for _, b := range backendKinds {
+		for _, a := range c08Progs(2) {
+			cells = append(cells, Cell{ID: c08Cell{Backend: b, Batch: "none", A: a, NB: 1, Coll: true}.id()})
 		}
 	}
 
@@ -349,6 +358,10 @@ func (h *c08h) batch(kind string, client int) {
 func c08Run(c Cell, env *Env) CellResult {
 	var cc c08Cell
 	_ = json.Unmarshal([]byte(c.ID), &cc)
+
+	if cc.Coll {
+		return c09ConcAs("C08", c09Cell{Mode: "conc", Backend: cc.Backend, A: cc.A}, env)
+	}
 
 	res := CellResult{Exhaustive: true, Outcomes: map[string]int{}}
 	keys := sameShardKeys()
@@ -612,7 +625,7 @@ func init() {
 		Cells: c08Cells, Run: c08Run,
 		Rule: "client programs: thread A = every sequence of 1-2 operations over {Write,Read,Delete} x {k0,k1}, thread B = every sequence of 1 (quick) / 1-2 (thorough) operations, optional third single-operation thread (thorough), " +
 			"preemption bound 2 with happens-before caching; thorough additionally runs the quick programs with ALL interleavings; " +
-			"plus one batch thread from {ExpireAll, DeleteAll, cleanup (delete-expired), eviction under MostExpired/LRU/LFU, Walk under MostExpired/LRU}; k0,k1 live in the same shard; 3 backends; the ExpireAll and cleanup cells once more on a cache configured with UnlimitedTTL; " +
+			"plus one batch thread from {ExpireAll, DeleteAll, cleanup (delete-expired), eviction under MostExpired/LRU/LFU, Walk under MostExpired/LRU}; k0,k1 live in the same shard; 3 backends; the ExpireAll and cleanup cells once more on a cache configured with UnlimitedTTL; the client programs once more on two keys with the SAME xxhash64 (slot model: a write may displace the colliding key, nothing else may cross keys); " +
 			"all schedules within the bound; each per-key history (invocation/response stamped by a logical clock, batch calls as one pseudo-operation per key spanning the call, every Walk report as a read-like pseudo-operation) " +
 			"is checked with porcupine against a nondeterministic register-with-expiry model; an entry nobody touches must be visited exactly once by every Walk",
 		Assumptions: []string{
